@@ -151,6 +151,10 @@ class Server(utils.EventEmitter):
         )  # Map of subscriber states by connection handle and attribute handle
         self.indication_semaphores = defaultdict(lambda: asyncio.Semaphore(1))
         self.pending_confirmations = defaultdict(lambda: None)
+        self.abandoned_indications: dict[
+            att.Bearer,
+            tuple[asyncio.futures.Future, asyncio.Semaphore, asyncio.TimerHandle],
+        ] = {}
 
     def __str__(self) -> str:
         return "\n".join(map(str, self.attributes))
@@ -553,7 +557,11 @@ class Server(utils.EventEmitter):
         logger.debug(f'GATT Indicate from server: {_bearer_id(bearer)} {indication}')
 
         # Wait until we can send (only one pending indication at a time per connection)
-        async with self.indication_semaphores[bearer]:
+        semaphore = self.indication_semaphores[bearer]
+        await semaphore.acquire()
+        abandoned = False
+        pending_confirmation = None
+        try:
             assert self.pending_confirmations[bearer] is None
 
             # Create a future value to hold the eventual response
@@ -567,9 +575,40 @@ class Server(utils.EventEmitter):
             except asyncio.TimeoutError as error:
                 logger.warning(color('!!! GATT Indicate timeout', 'red'))
                 raise TimeoutError(f'GATT timeout for {indication.name}') from error
-            finally:
+            except asyncio.CancelledError:
+                if (
+                    pending_confirmation.cancelled()
+                    and self.pending_confirmations.get(bearer) is pending_confirmation
+                ):
+                    # The caller gave up while its indication is unconfirmed: no other
+                    # indication may be sent on this bearer until the confirmation
+                    # arrives (or the transaction times out, or the bearer closes)
+                    abandoned = True
+                    self.abandoned_indications[bearer] = (
+                        pending_confirmation,
+                        semaphore,
+                        asyncio.get_running_loop().call_later(
+                            GATT_REQUEST_TIMEOUT,
+                            self.end_abandoned_indication,
+                            bearer,
+                        ),
+                    )
+                raise
+        finally:
+            if not abandoned:
                 # (the default is None; don't re-create an entry for a closed bearer)
-                self.pending_confirmations.pop(bearer, None)
+                if self.pending_confirmations.get(bearer) is pending_confirmation:
+                    self.pending_confirmations.pop(bearer, None)
+                semaphore.release()
+
+    def end_abandoned_indication(self, bearer: att.Bearer) -> None:
+        if (abandoned := self.abandoned_indications.pop(bearer, None)) is None:
+            return
+        pending_confirmation, semaphore, timer = abandoned
+        timer.cancel()
+        if self.pending_confirmations.get(bearer) is pending_confirmation:
+            self.pending_confirmations.pop(bearer, None)
+        semaphore.release()
 
     async def _notify_or_indicate_subscribers(
         self,
@@ -619,6 +658,7 @@ class Server(utils.EventEmitter):
 
     def on_disconnection(self, bearer: att.Bearer) -> None:
         self.subscribers.pop(bearer, None)
+        self.end_abandoned_indication(bearer)
         self.indication_semaphores.pop(bearer, None)
         self.pending_confirmations.pop(bearer, None)
 
@@ -1267,6 +1307,11 @@ class Server(utils.EventEmitter):
         See Bluetooth spec Vol 3, Part F - 3.4.7.3 Handle Value Confirmation
         '''
         del confirmation  # Unused.
+        if bearer in self.abandoned_indications:
+            # The caller of the indication gave up; its transaction is over now
+            self.end_abandoned_indication(bearer)
+            return
+
         if (
             pending_confirmation := self.pending_confirmations[bearer]
         ) is None or pending_confirmation.done():
